@@ -3,7 +3,7 @@ from mindsdb_sql.parser.parser import SQLParser
 from mindsdb_sql.parser.ast import *
 from mindsdb_sql.parser.dialects.mysql.lexer import MySQLLexer
 from mindsdb_sql.exceptions import ParsingException
-from mindsdb_sql.parser.utils import ensure_select_keyword_order, JoinType, unquote_string_token
+from mindsdb_sql.parser.utils import ensure_select_keyword_order, JoinType, unquote_string_token, binary_operation
 
 """
 Unfortunately the rules are not iherited from base SQLParser, because it just doesn't work with Sly due to metaclass magic.
@@ -880,7 +880,7 @@ class MySQLParser(SQLParser):
        'expr CONCAT expr',
        'expr IN expr')
     def expr(self, p):
-        return BinaryOperation(op=p[1], args=(p.expr0, p.expr1))
+        return binary_operation(p[1], p.expr0, p.expr1)
 
 
     @_('MINUS expr %prec UMINUS',
